@@ -160,6 +160,175 @@ func genMapRange(repo string) (string, error) {
 	}
 	sb.WriteString(strings.Join(rows, ";\n"))
 	sb.WriteString("\n].\n")
+	mk, err := mapKeyTables(repo)
+	if err != nil {
+		return "", err
+	}
+	sb.WriteString(mk)
+	return sb.String(), nil
+}
+
+// every kind a protobuf map key can have (language guide: any integral or string type, bool)
+var mapKeyKinds = []string{"BoolKind", "Int32Kind", "Sint32Kind", "Sfixed32Kind", "Int64Kind", "Sint64Kind", "Sfixed64Kind",
+	"Uint32Kind", "Fixed32Kind", "Uint64Kind", "Fixed64Kind", "StringKind"}
+
+type kindSwitch struct {
+	Func    string
+	Kinds   []string
+	Default bool
+}
+
+// kindSwitches: every `switch` of n all of whose case labels are protoreflect.<X>Kind selectors
+func kindSwitches(fn string, n ast.Node) []kindSwitch {
+	var out []kindSwitch
+	ast.Inspect(n, func(x ast.Node) bool {
+		sw, ok := x.(*ast.SwitchStmt)
+		if !ok || sw.Body == nil {
+			return true
+		}
+		ks := kindSwitch{Func: fn}
+		all := true
+		for _, st := range sw.Body.List {
+			cc, ok := st.(*ast.CaseClause)
+			if !ok {
+				continue
+			}
+			if cc.List == nil {
+				ks.Default = true
+				continue
+			}
+			for _, e := range cc.List {
+				se, ok := e.(*ast.SelectorExpr)
+				if id, ok2 := func() (*ast.Ident, bool) {
+					if !ok {
+						return nil, false
+					}
+					id, ok2 := se.X.(*ast.Ident)
+					return id, ok2
+				}(); ok2 && id.Name == "protoreflect" && strings.HasSuffix(se.Sel.Name, "Kind") {
+					ks.Kinds = append(ks.Kinds, se.Sel.Name)
+				} else {
+					all = false
+				}
+			}
+		}
+		if all && len(ks.Kinds) > 0 {
+			sort.Strings(ks.Kinds)
+			out = append(out, ks)
+		}
+		return true
+	})
+	return out
+}
+
+// calledFuncs: the package-level functions (by name) called inside n, transitively
+func calledFuncs(funcs map[string]*ast.FuncDecl, n ast.Node, seen map[string]bool) {
+	ast.Inspect(n, func(x ast.Node) bool {
+		ce, ok := x.(*ast.CallExpr)
+		if !ok {
+			return true
+		}
+		if id, ok := ce.Fun.(*ast.Ident); ok {
+			if fd, ok := funcs[id.Name]; ok && !seen[id.Name] {
+				seen[id.Name] = true
+				calledFuncs(funcs, fd, seen)
+			}
+		}
+		return true
+	})
+}
+
+// mapKeyTables: how optionreflect.walkOptionMap orders the entries of a map-valued option.  The comparator handed to the
+// sort call that follows the Map.Range, with every package function it calls: its switches over protoreflect kinds (none =
+// the comparator does not look at the key kind); and the kind switches of everything else walkOptionMap calls (the printed
+// key comes from marshalSingular).  A key kind without an arm in one of them falls into `default` / past the switch.
+func mapKeyTables(repo string) (string, error) {
+	tp, err := loadTyped(repo, "internal/j5s/protoprint/optionreflect")
+	if err != nil {
+		return "", err
+	}
+	funcs := map[string]*ast.FuncDecl{}
+	for _, f := range tp.files {
+		for _, d := range f.Decls {
+			if fd, ok := d.(*ast.FuncDecl); ok && fd.Body != nil && fd.Recv == nil {
+				funcs[fd.Name.Name] = fd
+			}
+		}
+	}
+	wm, ok := funcs["walkOptionMap"]
+	if !ok {
+		return "", fmt.Errorf("optionreflect: func walkOptionMap not found")
+	}
+	sortFound, litCmp := false, true
+	var cmpSw, otherSw []kindSwitch
+	cmpSeen := map[string]bool{}
+	var cmpNodes []ast.Node
+	ast.Inspect(wm, func(x ast.Node) bool {
+		ce, ok := x.(*ast.CallExpr)
+		if !ok {
+			return true
+		}
+		se, ok := ce.Fun.(*ast.SelectorExpr)
+		if !ok {
+			return true
+		}
+		id, ok := se.X.(*ast.Ident)
+		if !ok || !(id.Name == "sort" || id.Name == "slices") || !(strings.HasPrefix(se.Sel.Name, "Slice") || strings.HasPrefix(se.Sel.Name, "Sort") || strings.HasPrefix(se.Sel.Name, "Stable")) {
+			return true
+		}
+		sortFound = true
+		hasLit := false
+		for _, a := range ce.Args {
+			if fl, ok := a.(*ast.FuncLit); ok {
+				hasLit = true
+				cmpNodes = append(cmpNodes, fl)
+				cmpSw = append(cmpSw, kindSwitches("<comparator>", fl)...)
+				calledFuncs(funcs, fl, cmpSeen)
+			}
+		}
+		if !hasLit {
+			litCmp = false // sort.Sort(x) / a named comparator: not analysed
+		}
+		return true
+	})
+	var names []string
+	for n := range cmpSeen {
+		names = append(names, n)
+	}
+	sort.Strings(names)
+	for _, n := range names {
+		cmpSw = append(cmpSw, kindSwitches(n, funcs[n])...)
+	}
+	// everything else walkOptionMap calls (outside the comparator)
+	otherSeen := map[string]bool{}
+	calledFuncs(funcs, wm, otherSeen)
+	names = nil
+	for n := range otherSeen {
+		if !cmpSeen[n] {
+			names = append(names, n)
+		}
+	}
+	sort.Strings(names)
+	for _, n := range names {
+		otherSw = append(otherSw, kindSwitches(n, funcs[n])...)
+	}
+	row := func(ks []kindSwitch) string {
+		var rows []string
+		for _, k := range ks {
+			rows = append(rows, fmt.Sprintf("  (%s, %s, %s)", coqStr(k.Func), coqStrList(k.Kinds), coqBool(k.Default)))
+		}
+		return "[\n" + strings.Join(rows, ";\n") + "\n]"
+	}
+	var sb strings.Builder
+	sb.WriteString("(* optionreflect/walk.go walkOptionMap: the entries of a map-valued option are collected in Map.Range order and sorted.\n")
+	sb.WriteString("   map_key_kinds: every kind a protobuf map key can have.  map_key_sort: a sort call is there, its comparator is a function\n")
+	sb.WriteString("   literal.  map_key_cmp_switches: every switch over protoreflect kinds in the comparator and in the package functions it\n")
+	sb.WriteString("   calls (function, kinds with an arm, has a default arm); empty = the comparator does not look at the key kind.\n")
+	sb.WriteString("   map_key_print_switches: the same for everything else walkOptionMap calls (the printed key: marshalSingular) *)\n")
+	sb.WriteString("Definition map_key_kinds : list string := " + coqStrList(mapKeyKinds) + ".\n")
+	sb.WriteString("Definition map_key_sort : bool * bool := (" + coqBool(sortFound) + ", " + coqBool(litCmp) + ").\n")
+	sb.WriteString("Definition map_key_cmp_switches : list (string * list string * bool) := " + row(cmpSw) + ".\n")
+	sb.WriteString("Definition map_key_print_switches : list (string * list string * bool) := " + row(otherSw) + ".\n")
 	return sb.String(), nil
 }
 
